@@ -16,6 +16,7 @@ pub fn dispatch(mode: &str, args: &[String]) -> bool {
         "semtable" => semtable(),
         "flatten" => mode_flatten(args),
         "simplify" => mode_simplify(args),
+        "construct" => mode_construct(args),
         _ => return false,
     }
     true
@@ -614,6 +615,220 @@ fn replay_simplify<const N: usize, const M: usize>(p: &GenericVmFunction<N>, vec
             }
             Ok(Err(e)) => println!("{{\"ok\":false,\"vars\":\"{}\",\"trace\":\"{}\",\"error\":\"{}\"}}", f(&args), trace_str(tr.as_slice()), e),
             Err(pn) => println!("{{\"ok\":false,\"vars\":\"{}\",\"trace\":\"{}\",\"panic\":\"{}\"}}", f(&args), trace_str(tr.as_slice()), panic_msg(pn)),
+        }
+    }
+}
+
+
+// ---------------------------------------------------------------------------
+// C12: constructors (constant folding, identities, reordering, dedup)
+
+#[derive(Clone, Debug)]
+enum Ex {
+    L(Leaf),
+    U(UnaryOpcode, Box<Ex>),
+    B(BinaryOpcode, Box<Ex>, Box<Ex>),
+}
+
+fn ex_build(ctx: &mut Context, e: &Ex) -> Node {
+    match e {
+        Ex::L(l) => build_leaf(ctx, *l),
+        Ex::U(op, a) => {
+            let a = ex_build(ctx, a);
+            build_unary(ctx, *op, a)
+        }
+        Ex::B(op, a, b) => {
+            let a = ex_build(ctx, a);
+            let b = ex_build(ctx, b);
+            build_binary(ctx, *op, a, b)
+        }
+    }
+}
+
+/// The expression as written, in the same line format as `dump_graph`
+fn ex_dump(e: &Ex, lines: &mut Vec<String>) -> usize {
+    let line = match e {
+        Ex::L(Leaf::X) => "in X".to_string(),
+        Ex::L(Leaf::Y) => "in Y".to_string(),
+        Ex::L(Leaf::Z) => "in Z".to_string(),
+        Ex::L(Leaf::C(b)) => format!("const 0x{:08x}", b),
+        Ex::U(op, a) => {
+            let a = ex_dump(a, lines);
+            format!("un {:?} {}", op, a)
+        }
+        Ex::B(op, a, b) => {
+            let a = ex_dump(a, lines);
+            let b = ex_dump(b, lines);
+            format!("bin {:?} {} {}", op, a, b)
+        }
+    };
+    lines.push(line);
+    lines.len() - 1
+}
+
+const SPECIAL: [u32; 11] = [
+    0x00000000, 0x80000000, 0x3f800000, 0xbf800000, 0x40000000, 0x3f000000, 0x40400000, 0x7f800000, 0xff800000, 0x7fc00000,
+    0x00000001,
+];
+
+fn mode_construct(args: &[String]) {
+    // construct <level> <stride> <offset>
+    let level: usize = args[0].parse().unwrap();
+    let stride: u64 = args.get(1).map(|s| s.parse().unwrap()).unwrap_or(1);
+    let offset: u64 = args.get(2).map(|s| s.parse().unwrap()).unwrap_or(0);
+    let replay_id: Option<u64> = args.get(3).map(|s| s.parse().unwrap());
+    let replay_vecs: Vec<Vec<f32>> = args
+        .get(4)
+        .map(|s| s.split(';').map(|v| v.split(',').map(parse_f).collect()).collect())
+        .unwrap_or_default();
+    let stdout = std::io::stdout();
+    let mut out = std::io::BufWriter::new(stdout.lock());
+    let mut id = 0u64;
+    let mut atoms: Vec<Ex> = vec![Ex::L(Leaf::X), Ex::L(Leaf::Y)];
+    for c in SPECIAL {
+        atoms.push(Ex::L(Leaf::C(c)));
+    }
+    let bins = [
+        BinaryOpcode::Add,
+        BinaryOpcode::Sub,
+        BinaryOpcode::Mul,
+        BinaryOpcode::Div,
+        BinaryOpcode::Min,
+        BinaryOpcode::Max,
+        BinaryOpcode::And,
+        BinaryOpcode::Or,
+        BinaryOpcode::Compare,
+        BinaryOpcode::Atan,
+        BinaryOpcode::Mod,
+        BinaryOpcode::Mix,
+    ];
+    let mut cases: Vec<Ex> = vec![];
+    if level == 1 {
+        for u in UNARY {
+            let libm = matches!(
+                u.sem,
+                UnaryOpcode::Sin | UnaryOpcode::Cos | UnaryOpcode::Tan | UnaryOpcode::Asin | UnaryOpcode::Acos | UnaryOpcode::Atan
+                    | UnaryOpcode::Exp | UnaryOpcode::Ln
+            );
+            for a in [Ex::L(Leaf::X), Ex::L(Leaf::C(0x40000000)), Ex::L(Leaf::C(0x80000000)), Ex::L(Leaf::C(0xbf800000))] {
+                // folding a libm call on a constant cannot be judged against an
+                // uninterpreted function
+                if libm && matches!(a, Ex::L(Leaf::C(_))) {
+                    continue;
+                }
+                cases.push(Ex::U(u.sem, Box::new(a)));
+            }
+            // unary of unary (e.g. neg(neg(x)), abs(neg(x)))
+            for v in UNARY.iter() {
+                cases.push(Ex::U(u.sem, Box::new(Ex::U(v.sem, Box::new(Ex::L(Leaf::X))))));
+            }
+        }
+        for &b in &bins {
+            for x in &atoms {
+                for y in &atoms {
+                    let both_const = matches!(x, Ex::L(Leaf::C(_))) && matches!(y, Ex::L(Leaf::C(_)));
+                    if both_const && matches!(b, BinaryOpcode::Atan | BinaryOpcode::Mod) {
+                        continue;
+                    }
+                    cases.push(Ex::B(b, Box::new(x.clone()), Box::new(y.clone())));
+                }
+            }
+        }
+    } else {
+        // (nested mul/div make the FP queries undecidable within minutes: outside the claim)
+        let inner_ops = [BinaryOpcode::Add, BinaryOpcode::Sub, BinaryOpcode::Min, BinaryOpcode::Max];
+        let small: Vec<Ex> =
+            vec![Ex::L(Leaf::Y), Ex::L(Leaf::X), Ex::L(Leaf::C(0)), Ex::L(Leaf::C(0x3f800000)), Ex::L(Leaf::C(0xbf800000)), Ex::L(Leaf::C(0x40000000))];
+        for &o1 in &inner_ops {
+            for b in &small {
+                for side in 0..2 {
+                    let inner = if side == 0 {
+                        Ex::B(o1, Box::new(Ex::L(Leaf::X)), Box::new(b.clone()))
+                    } else {
+                        Ex::B(o1, Box::new(b.clone()), Box::new(Ex::L(Leaf::X)))
+                    };
+                    for &o2 in &bins[..8] {
+                        for c in &small {
+                            cases.push(Ex::B(o2, Box::new(inner.clone()), Box::new(c.clone())));
+                            cases.push(Ex::B(o2, Box::new(c.clone()), Box::new(inner.clone())));
+                        }
+                        // the same subexpression on both sides
+                        cases.push(Ex::B(o2, Box::new(inner.clone()), Box::new(inner.clone())));
+                    }
+                    for u in [UnaryOpcode::Neg, UnaryOpcode::Abs, UnaryOpcode::Square, UnaryOpcode::Recip, UnaryOpcode::Not] {
+                        cases.push(Ex::U(u, Box::new(inner.clone())));
+                    }
+                }
+            }
+        }
+    }
+    for e in cases {
+        id += 1;
+        if stride > 1 && (id % stride) != (offset % stride) {
+            continue;
+        }
+        if let Some(rid) = replay_id {
+            if rid == id {
+                let mut ctx = Context::new();
+                let n = ex_build(&mut ctx, &e);
+                for v in &replay_vecs {
+                    let got = ctx.eval_xyz(n, v[0], v[1], 0.0).unwrap();
+                    let (want, finite) = ex_eval(&e, v[0], v[1]);
+                    let ok = !finite || got == want;
+                    println!(
+                        "{{\"ok\":{},\"x\":\"{}\",\"y\":\"{}\",\"context\":\"{}\",\"unsimplified\":\"{}\",\"finite\":{}}}",
+                        ok, fmt_f32(v[0]), fmt_f32(v[1]), fmt_f32(got), fmt_f32(want), finite
+                    );
+                }
+            }
+            continue;
+        }
+        let r = std::panic::catch_unwind(std::panic::AssertUnwindSafe(|| {
+            let mut ctx = Context::new();
+            let n = ex_build(&mut ctx, &e);
+            // building the same expression again must give the same node
+            let n2 = ex_build(&mut ctx, &e);
+            let (glines, groots) = dump_graph(&ctx, &[n]);
+            (glines, groots[0], n == n2)
+        }));
+        let mut elines = vec![];
+        let eroot = ex_dump(&e, &mut elines);
+        match r {
+            Ok((glines, groot, same)) => writeln!(
+                out,
+                "{{\"id\":{},\"expr\":{},\"expr_root\":{},\"graph\":{},\"root\":{},\"dedup\":{}}}",
+                id,
+                jstr_list(&elines),
+                eroot,
+                jstr_list(&glines),
+                groot,
+                same
+            )
+            .unwrap(),
+            Err(p) => writeln!(out, "{{\"id\":{},\"expr\":{},\"expr_root\":{},\"panic\":\"{}\"}}", id, jstr_list(&elines), eroot, panic_msg(p)).unwrap(),
+        }
+    }
+}
+
+
+/// Evaluates the expression as written, operation by operation; also reports
+/// whether every intermediate value was finite
+fn ex_eval(e: &Ex, x: f32, y: f32) -> (f32, bool) {
+    match e {
+        Ex::L(Leaf::X) => (x, x.is_finite()),
+        Ex::L(Leaf::Y) => (y, y.is_finite()),
+        Ex::L(Leaf::Z) => (0.0, true),
+        Ex::L(Leaf::C(b)) => (f32::from_bits(*b), f32::from_bits(*b).is_finite()),
+        Ex::U(op, a) => {
+            let (a, fa) = ex_eval(a, x, y);
+            let v = op.eval(a);
+            (v, fa && v.is_finite())
+        }
+        Ex::B(op, a, b) => {
+            let (a, fa) = ex_eval(a, x, y);
+            let (b, fb) = ex_eval(b, x, y);
+            let v = op.eval(a, b);
+            (v, fa && fb && v.is_finite())
         }
     }
 }
